@@ -56,6 +56,16 @@ TEMPLATES = [
     ('if-in-case', 'SELECT CASE zv%\nCASE 2\nIF {c} THEN\n{X}END IF\nCASE ELSE\nEND SELECT\n'),
     ('do-in-if', 'IF {c} THEN\nDO\n{X}LOOP UNTIL zt%\nEND IF\n'),
     ('if-after-loop-end', 'FOR zi{n}% = 1 TO 2\nIF {c} THEN {S}\nNEXT\n'),
+    # tail positions: a GOSUB or a call directly followed by the RETURN / END SUB of the routine it stands in
+    ('gosub-tail', 'GOSUB zl{n}\nGOTO zm{n}\nzl{n}: GOSUB zk{n}\nRETURN\nzk{n}: {X}RETURN\nzm{n}:\n'),
+    ('gosub-tail-twice', 'GOSUB zl{n}\nGOSUB zl{n}\nGOTO zm{n}\nzl{n}: {X}GOSUB zk{n}\nRETURN\nzk{n}: zq% = zq% + 1\nRETURN\nzm{n}: PRINT "q{n}"; zq%\n'),
+    ('gosub-tail-if', 'GOSUB zl{n}\nGOTO zm{n}\nzl{n}: IF {c} THEN GOSUB zk{n}\nRETURN\nzk{n}: {X}RETURN\nzm{n}:\n'),
+    ('gosub-subcall-tail', 'GOSUB zl{n}\nGOTO zm{n}\nzl{n}: {X}ztailp zq%, 2\nRETURN\nzm{n}: PRINT "q{n}"; zq%\n'),
+    ('gosub-subcall-tail-byval', 'GOSUB zl{n}\nGOTO zm{n}\nzl{n}: {X}CALL ztailp((zq%), zv% + 1)\nRETURN\nzm{n}: PRINT "q{n}"; zq%\n'),
+    ('gosub-funcall-tail', 'GOSUB zl{n}\nGOTO zm{n}\nzl{n}: {X}zq% = ztailf%(1) + zprobe%(2)\nRETURN\nzm{n}: PRINT "q{n}"; zq%\n'),
+    ('gosub-subcall-tail-if', 'GOSUB zl{n}\nGOTO zm{n}\nzl{n}: IF {c} THEN ztailp zq%, 3\nRETURN\nzm{n}: PRINT "q{n}"; zq%\n'),
+    ('sub-tail-call', 'ztail1\n{X}'),
+    ('function-tail-call', 'zq% = ztailf%(2)\n{X}'),
     ('select-no-case', 'SELECT CASE zv%\nEND SELECT\n{X}'),
     ('select-no-case-expr', 'SELECT CASE zv% + 1\nEND SELECT\n{X}'),
 ]
@@ -96,7 +106,10 @@ def constructs():
 
 
 PLACEMENTS = ('gosub', 'sub', 'function')
-PROBE = 'FUNCTION zprobe% (n%)\nPRINT "probe"; n%\nzprobe% = n%\nEND FUNCTION\n'
+PROBE = ('FUNCTION zprobe% (n%)\nPRINT "probe"; n%\nzprobe% = n%\nEND FUNCTION\n'
+         'SUB ztail1\nPRINT "t1"\nztail2\nztailp zq%, 1\nEND SUB\nSUB ztail2\nPRINT "t2"\nEND SUB\n'
+         'SUB ztailp (a%, b%)\na% = a% + b%\nPRINT "tp"; a%\nEND SUB\n'
+         'FUNCTION ztailf% (n%)\nIF n% > 0 THEN ztailf% = ztailf%(n% - 1) ELSE ztailf% = 5\nEND FUNCTION\n')
 
 
 def program(mk, placement):
@@ -136,6 +149,11 @@ def sample(n, seed, always_empty=True):
             name, ck, fill = tag.split('|')[:3]
             if set(fill) <= {'0'} and name not in seen and ck in ('vt', 'vf', '-', 'c1'):  # (other conditions come from the random part)
                 seen.add(name)
+                must.append((tag, text))
+            elif name in ('gosub-tail', 'gosub-tail-twice', 'gosub-tail-if', 'sub-tail-call', 'function-tail-call', 'gosub-subcall-tail',
+                          'gosub-subcall-tail-byval', 'gosub-funcall-tail', 'gosub-subcall-tail-if') and ck in ('vt', 'vf', '-') \
+                    and (name, ck) not in seen:
+                seen.add((name, ck))
                 must.append((tag, text))
             elif set(fill) <= {'0'} and ck in ('fn', 'trap') and name in ('if', 'if-elseif', 'if-in-for', 'if-in-if', 'select-in-if',
                                                                            'do-in-if', 'if-goto-next', 'for-exit-if'):
